@@ -302,6 +302,18 @@ def cases(tier, seed):
             for tt in tts:
                 for ch in _chunks(t['ne'], t['stub_cap'] if n < 3 else t['stub_cap3']):
                     out.append({'kind': 'duccio', 'model': 'stub', 'n': n, 'mode': mode, 'tt': tt, 'ne': ch})
+    # extra families on the stub (see _run_extra)
+    x_ne = [1, 2, 3, 4, 5, 7] if tier == 'quick' else list(range(1, 13))
+    for n in (1, 2):
+        for f in itertools.product(GIVEN, repeat=n):
+            for tt in ('tensor', 'float'):
+                out.append({'kind': 'extra', 'fam': 'shared-instance', 'n': n, 'tt': tt, 'ne': x_ne, 'mode': {'kind': 'given', 'f': list(f)}})
+    for n in (2, 3):
+        frees = [c for r in range(1, n) for c in itertools.combinations(range(n), r)]
+        for mode in ([{'kind': 'given', 'f': [GIVEN[i % 2] for i in range(n)]}, {'kind': 'given', 'f': [2.0] * n}]
+                     + [{'kind': 'derived', 'first': 'self', 'task_loss': t['task_loss'][0]}]):
+            for tt in ('tensor', 'float'):
+                out.append({'kind': 'extra', 'fam': 'infinite-target', 'n': n, 'tt': tt, 'mode': mode, 'free': [list(c) for c in frees]})
     # real DUCCIO
     for m, tt in (('pit2d', 'float'), ('mps_a', 'tensor')):
         for n in range(1, t['real_n'][m] + 1):
@@ -772,7 +784,116 @@ def _run_config(ctx, subj, names, A, akey, mode, mkey, derived, tt, ne, epochs):
     return sample
 
 
+# ----------------------------------------------------------------------------------------------
+# DUCCIO, extra families: one shared instance called in other orders than a training loop; unconstrained (infinite) targets
+# ----------------------------------------------------------------------------------------------
+def _orders(ne_list):
+    """visiting orders of the schedule points (epoch, n_epochs) and of un-scheduled calls (None) on ONE regularizer instance"""
+    pts = [(e, ne) for ne in ne_list for e in range(ne + 1)]
+    transposed = sorted(pts, key=lambda p: (p[0], p[1]))                    # same epoch, growing schedule length
+    descending = sorted(pts, key=lambda p: (-p[1], -p[0]))
+    interleaved = []
+    for i, p in enumerate(transposed):
+        interleaved.append(p)
+        if i % 3 == 0:
+            interleaved.append(None)                                       # reg(model): the documented un-annealed call
+    zigzag = []
+    for e in range(max(ne_list) + 1):
+        col = [p for p in pts if p[0] == e]
+        zigzag += col if e % 2 == 0 else col[::-1]
+    return {'transposed': transposed, 'descending': descending, 'interleaved-default': interleaved, 'zigzag': zigzag}
+
+
+def _run_extra(case, seed):
+    import torch
+    ctx = _Ctx(case)
+    only = case.get('only')
+    n, tt, fam = case['n'], case['tt'], case['fam']
+    names = NAMES[:n]
+    subj = _StubSubject(names)
+    sample = None
+    if fam == 'shared-instance':
+        mode = case['mode']
+        mkey = _mode_key(mode)
+        for A in itertools.product(LEVELS, repeat=n):
+            if only is not None and tuple(only['A']) != A:
+                continue
+            T, base, base_costs, _ = subj.setup(A)
+            for oname, order in _orders(case['ne']).items():
+                if only is not None and only.get('order') != oname:
+                    continue
+                reg, finals, _ = _mk_reg(names, T, mode, tt)
+                ctx.states += 1
+                prev = None
+                for pt in order:
+                    v, seen, g, _ = _call(reg, base, pt, True)
+                    ctx.transitions += 1
+                    ctx.evals += 1
+                    e, ne = pt if pt is not None else (None, None)
+                    rv, rg = duccio_ref({k: seen[k] for k in names}, T, finals, e, ne)
+                    ctx.nontrivial.add(f'X/{n}/{mkey}/{tt}/{"".join(LETTER[a] for a in A)}/{oname}/{pt}')
+                    bad = (not math.isfinite(v)) or v < 0 or (not close(v, rv) and abs(v - rv) > 1e-9)
+                    gbad = any(abs(g[k] - rg[k]) > RTOL * max(abs(rg[k]), 1e-12) for k in names if seen[k] != T[k])
+                    if bad or gbad:
+                        ctx.outcomes.add('value-depends-on-call-history')
+                        ctx.violation('value', 'value/shared-instance-call-order',
+                                      f'stub A={dict(zip(names, A))} targets={T} {mkey} targets-as-{tt}: one DUCCIO instance called in the order '
+                                      f'"{oname}": the call {pt} right after the call {prev} returns {v!r} (gradient {g}) but strength x excess at that '
+                                      f'schedule position is {rv!r} (gradient {rg}) - the value of a call depends on its own arguments only',
+                                      {'A': list(A), 'order': oname})
+                        break
+                    prev = pt
+                else:
+                    ctx.outcomes.add('ok')
+            sample = {'family': fam, 'assignment': dict(zip(names, A)), 'strengths': mkey, 'orders': list(_orders(case['ne'])), 'n_epochs': case['ne']}
+        return ctx.result(sample)
+    # ---- unconstrained metrics: target = +inf (the usual way to carry a metric along without constraining it) ----
+    mode = case['mode']
+    mkey = _mode_key(mode)
+    for free in case['free']:
+        for A in itertools.product(LEVELS, repeat=n):
+            if only is not None and (tuple(only['A']) != A or only.get('free') != list(free)):
+                continue
+            T, base, base_costs, _ = subj.setup(A)
+            T = {k: (float('inf') if i in free else T[k]) for i, k in enumerate(names)}
+            reg, finals, task_loss = _mk_reg(names, T, mode, tt)
+            ctx.states += 1
+            constrained = [k for i, k in enumerate(names) if i not in free]
+            for pt in [(0, 4), (1, 4), (2, 4), (4, 4), None, (3, 7)]:
+                v, seen, g, _ = _call(reg, base, pt, True)
+                ctx.transitions += 1
+                ctx.evals += 1
+                ctx.nontrivial.add(f'I/{n}/{mkey}/{tt}/{"".join(LETTER[a] for a in A)}/{free}/{pt}')
+                holds = all(seen[k] <= T[k] for k in constrained)
+                what = None
+                if not math.isfinite(v) or v < 0:
+                    what = f'returns {v!r}: not a finite non-negative value'
+                elif holds and v != 0.0:
+                    what = f'returns {v!r} although every constrained cost is at or below its target'
+                elif not holds and not v > 0.0 and mode['kind'] == 'given':
+                    what = f'returns {v!r} although {[k for k in constrained if seen[k] > T[k]]} exceed their targets'
+                elif mode['kind'] == 'given':
+                    e, ne = pt if pt is not None else (None, None)
+                    rv, _ = duccio_ref({k: seen[k] for k in names}, T, finals, e, ne)
+                    if not close(v, rv) and abs(v - rv) > 1e-9:
+                        what = f'returns {v!r}, strength x excess over the constrained metrics is {rv!r}'
+                if what is None and any(not math.isfinite(g[k]) for k in names):
+                    what = f'has a non-finite gradient {g}'
+                if what:
+                    ctx.outcomes.add('unconstrained-metric-breaks-value')
+                    ctx.violation('value', 'value/infinite-target',
+                                  f'stub A={dict(zip(names, A))} targets={T} (metrics {[names[i] for i in free]} unconstrained: target +inf) {mkey} '
+                                  f'targets-as-{tt}: the call {pt} {what}', {'A': list(A), 'free': list(free)})
+                    break
+            else:
+                ctx.outcomes.add('ok')
+            sample = {'family': fam, 'assignment': dict(zip(names, A)), 'targets': {k: str(v) for k, v in T.items()}, 'strengths': mkey}
+    return ctx.result(sample)
+
+
 def run_case(case, seed):
     if case['kind'] == 'base':
         return _run_base(case, seed)
+    if case['kind'] == 'extra':
+        return _run_extra(case, seed)
     return _run_duccio(case, seed)
